@@ -36,6 +36,9 @@ func genSteps(g *sgen.G, t *rapid.T, depth int, allowUnknown bool, st *lstats, p
 	if depth == 0 {
 		n = rapid.IntRange(1, 5).Draw(t, "nsteps0")
 	}
+	if depth <= 1 && rapid.IntRange(0, 39).Draw(t, "longlist") == 0 {
+		n = rapid.IntRange(65, 80).Draw(t, "nlonglist")
+	}
 	var out pipeline.Steps
 	for i := 0; i < n; i++ {
 		switch k := rapid.IntRange(0, 11).Draw(t, "kind"); {
@@ -158,7 +161,7 @@ var rec = ev.New("TestPropSignSteps", "step lists built as structs: mixtures of 
 func TestPropSignSteps(t *testing.T) {
 	pool := keys.Pool()
 	ctx := context.Background()
-	ev.Check(t, 1500, 60000, func(t *rapid.T) {
+	ev.Check(t, 1000, 40000, func(t *rapid.T) {
 		g := sgen.New(t, sgen.Opts{BigMaps: true})
 		st := &lstats{unknownDepth: -1}
 		penv := g.EnvMap("penv", 4)
@@ -178,6 +181,9 @@ func TestPropSignSteps(t *testing.T) {
 		kp := rapid.SampledFrom(pool).Draw(t, "key")
 		if rapid.IntRange(0, 3).Draw(t, "slowkey") > 0 {
 			kp = pool[rapid.IntRange(0, 1).Draw(t, "fastkey")] // mostly EdDSA: cheap
+		}
+		if st.ncmd > 40 {
+			kp = pool[rapid.IntRange(0, 1).Draw(t, "fastkeyforlonglist")] // long lists: EdDSA only (cost)
 		}
 		// some steps arrive already carrying a (stale / foreign) signature: a pipeline uploaded again
 		presigned := 0
